@@ -165,7 +165,7 @@ def svcUpdate (s : State) (id : Nat) (st : Option Status) (si : Option SchedIn) 
       .ok ({ s with tasks := replaceTask t s.tasks }, t)
 
 /-- What an options patch means for the stored schedule (`TaskUpdate.updateFlux` + kv `updateTask`):
-    `every` replaces a cron and vice versa, an offset patch sets (0 = removes) the offset, absent
+    `every` replaces a cron and vice versa, an offset patch sets (0 = removes, see below) the offset, absent
     parts keep their value.  (The Flux-AST editing itself is not modelled.) -/
 def patchSched (old : Sched) (every cron : Option String) (offset : Option Int) : Sched :=
   { cron := match cron, every with
@@ -176,7 +176,11 @@ def patchSched (old : Sched) (every cron : Option String) (offset : Option Int) 
       | some e, _ => e
       | none, some _ => ""
       | none, none => old.every,
-    offset := offset.getD old.offset }
+    -- `Options.IsZero` counts a zero offset as "not set": an offset-0 patch with nothing else is
+    -- ignored by kv.updateTask; together with every/cron it removes the offset
+    offset := match offset with
+      | none => old.offset
+      | some o => if o = 0 ∧ every.isNone ∧ cron.isNone then old.offset else o }
 
 /-- the store accepts an options patch iff it does not name both every and cron ("cannot specify both"),
     names no empty string, and the patched options validate (bit supplied with the operation) -/
